@@ -510,6 +510,7 @@ PASS_NATIVE = {
     builtins.callable, builtins.issubclass, builtins.print, builtins.filter, builtins.map,
     builtins.object, collections.deque, builtins.slice, builtins.super,
     object.__setattr__, object.__init__, object.__new__, type.__call__, type.__setattr__,
+    __import__('itertools').chain,
 }
 
 _LIST_PASS = {'append', 'insert', 'extend', 'pop', '__setitem__', '__getitem__', 'appendleft',
@@ -569,6 +570,9 @@ def sx_call(f, *args, **kw):
     slf = getattr(f, '__self__', None)
     if slf is not None and _isinstance(slf, logging.Logger):
         return None
+    if slf is not None and _type(slf) in (str, bytes) and args and getattr(f, '__name__', '') == 'join' \
+            and _type(args[0]) not in (list, tuple, str, bytes, CStr):
+        args = (list(args[0]),)         # materialise iterators so that proxies inside them are seen
     if not _has_proxy(args, kw):
         try:
             return f(*args, **kw)
